@@ -101,7 +101,17 @@ def first_difference(t1: List[Dict[str, str]], t2: List[Dict[str, str]]) -> Opti
     for i, (r1, r2) in enumerate(zip(t1, t2)):
         for k in ("flags", "step", "reward", "obs", "actions", "state"):
             if r1.get(k) != r2.get(k):
-                return {"index": i, "component": k, **_where(r1.get(k), r2.get(k))}
+                d = {"index": i, "component": k, **_where(r1.get(k), r2.get(k))}
+                j = next((j for j, (x, y) in enumerate(zip(t1, t2)) if x.get("rng") != y.get("rng")), None)
+                if j is not None:
+                    d["generators_differ_from_record"] = j
+                return d
+    # the state of the process-global generators after each operation (recorded by the history differentials only): what every later draw
+    # is a function of. Looked at only when everything the caller sees is equal, so that a behavioural difference is reported as such.
+    for i, (r1, r2) in enumerate(zip(t1, t2)):
+        if r1.get("rng") != r2.get("rng"):
+            return {"index": i, "component": "rng", "path": "state of the random / numpy.random / torch generators after the operation",
+                    "a": str(r1.get("rng")), "b": str(r2.get("rng"))}
     return None
 
 
@@ -156,18 +166,78 @@ def digest(t: List[Dict[str, str]]) -> str:
 
 
 # ------------------------------------------------------------------------------------------------ running
-def run_ops(env, ops: List[Any], canon: Canon, with_state: bool = True) -> List[Dict[str, str]]:
-    """ops: ("reset", seed) | ("step", action). Returns the canonical trajectory."""
+def rng_fp() -> str:
+    """digest of the state of the process-global generators that `set_random_seed` seeds (Python's, numpy's, torch's CPU generator)"""
+    import random
+    import sys
+
+    import numpy as np
+    h = hashlib.sha1(repr(random.getstate()).encode())
+    st = np.random.get_state()
+    h.update(st[1].tobytes())
+    h.update(repr(st[2:]).encode())
+    th = sys.modules.get("torch")
+    if th is not None:
+        try:
+            h.update(th.get_rng_state().numpy().tobytes())
+        except Exception:
+            pass
+    return h.hexdigest()[:16]
+
+
+def save_rng():
+    import random
+    import sys
+
+    import numpy as np
+    th = sys.modules.get("torch")
+    return (random.getstate(), np.random.get_state(), th.get_rng_state() if th is not None else None)
+
+
+def restore_rng(saved) -> None:
+    import random
+    import sys
+
+    import numpy as np
+    random.setstate(saved[0])
+    np.random.set_state(saved[1])
+    th = sys.modules.get("torch")
+    if th is not None and saved[2] is not None:
+        th.set_rng_state(saved[2])
+
+
+SEED_MAX = 2 ** 32 - 1     # the largest value numpy.random.seed accepts
+
+
+def configured_seed(cfg: Any) -> Optional[int]:
+    s = cfg.get("game", {}).get("seed") if isinstance(cfg, dict) else None
+    return s if isinstance(s, int) and not isinstance(s, bool) and s >= 0 else None
+
+
+def seed_family(configured: Optional[int], rng: Rng) -> List[Optional[int]]:
+    """the seed arguments every differential draws from: 0 (falsy!), 1, the scenario's configured `game.seed` (3 if it has none), the
+    largest accepted value, a random one, and None = `reset()` without a seed argument"""
+    return [0, 1, configured if configured is not None else 3, SEED_MAX, rng.range(2, 2 ** 31), None]
+
+
+def seed_text(s: Optional[int]) -> str:
+    return "none" if s is None else str(int(s))
+
+
+def run_ops(env, ops: List[Any], canon: Canon, with_state: bool = True, with_rng: bool = False) -> List[Dict[str, str]]:
+    """ops: ("reset", seed or None) | ("step", action). Returns the canonical trajectory."""
     out = []
     for op in ops:
         try:
             if op[0] == "reset":
-                obs, info = env.reset(seed=op[1])
+                obs, info = env.reset(seed=op[1]) if op[1] is not None else env.reset()
                 out.append(reset_record(canon, env, obs, with_state))
             else:
                 n = int(env.action_space.n)
                 obs, r, term, trunc, info = env.step(op[1] % n)
                 out.append(step_record(canon, env, obs, r, term, trunc, info, with_state))
+            if with_rng:
+                out[-1]["rng"] = rng_fp()
         except Exception as e:  # an operation that raises is an observable outcome (and ends the comparison for this instance)
             import traceback
             tb = traceback.extract_tb(e.__traceback__)[-1]
@@ -181,21 +251,65 @@ def gen_actions(rng: Rng, n: int, space: int, do_nothing_share: int = 4) -> List
 
 
 # ------------------------------------------------------------------------------------------------ (a) dirty history
-def dirty_history(cfg_or_path, rng: Rng, n_dirty: int, n_later: int, dirty_episodes: int, seed: int, make: Callable = None) -> dict:
-    """A used environment (dirty_episodes episodes of generated actions, the last one cut mid-episode) and a fresh one that has been
-    reset the same number of times; both then reset(seed) and receive the same later actions."""
+def _apply_history(env, history: List[Any]) -> None:
+    for op in history:
+        if op[0] == "reset":
+            env.reset(seed=op[1]) if op[1] is not None else env.reset()
+        else:
+            env.step(op[1] % int(env.action_space.n))
+
+
+def compare_after_history(cfg_or_path, history: List[Any], fresh_resets: int, later: List[Any], make: Callable = None, keep: bool = False) -> dict:
+    """THE oracle of (a), self-contained (also what a replay file re-executes): a used environment (construct + `history`) and a fresh one
+    (process state normalised to a new interpreter's, construct, `fresh_resets` resets so that an episode-scheduled scenario is at the same
+    episode) both execute `later` = reset(seed) + actions. With `seed = None` (`reset()`: Gymnasium keeps the generator running) the fresh
+    environment's reset starts from the generator state the used one had at ITS reset: what an unseeded reset may carry over from the
+    past is that state and nothing else."""
+    make = make or scen.make_env
+    normalise_process_state()
+    used = make(cfg_or_path)
+    _apply_history(used, history)
+    old_game = used.game
+    unseeded = later[0][0] == "reset" and later[0][1] is None
+    saved = save_rng() if unseeded else None
+    t_used = run_ops(used, later, Canon(), with_rng=True)
+    after_used = save_rng()
+    normalise_process_state()
+    fresh = make(cfg_or_path)
+    for k in range(fresh_resets):
+        fresh.reset(seed=1000003 + k)
+    if saved is not None:
+        restore_rng(saved)
+    t_fresh = run_ops(fresh, later, Canon(), with_rng=True)
+    out = {"diff": first_difference(t_used, t_fresh), "digest": digest(t_used), "t_used": t_used, "t_fresh": t_fresh}
+    if keep:
+        out.update({"used": used, "fresh": fresh, "old_game": old_game, "after_used": after_used})
+    else:
+        for e in (used, fresh):
+            try:
+                e.close()
+            except Exception:
+                pass
+    return out
+
+
+def dirty_history(cfg_or_path, rng: Rng, n_dirty: int, n_later: int, dirty_episodes: int, seeds: List[Optional[int]], make: Callable = None) -> dict:
+    """A used environment (dirty_episodes episodes of generated actions, the last one cut mid-episode); then, for EVERY seed argument in
+    `seeds` in turn (each compared episode is part of the dirty history of the next): `reset(seed)` + generated actions on the used
+    environment against a fresh environment that has been reset equally often. Returns the per-seed results and the first difference."""
     make = make or scen.make_env
     normalise_process_state()
     used = make(cfg_or_path)
     space = int(used.action_space.n)
-    log: List[Any] = []
+    history: List[Any] = []
     for ep in range(dirty_episodes):
         if ep > 0:
-            used.reset(seed=rng.below(2 ** 31))
-            log.append(("reset", None))
+            s = rng.below(2 ** 31)
+            used.reset(seed=s)
+            history.append(("reset", s))
         for a in gen_actions(rng.fork(f"dirty{ep}"), n_dirty, space, 8):
             used.step(a)
-            log.append(("step", a))
+            history.append(("step", a))
     old_game = used.game
     # how dirty is the last episode of the history: accepted requests per action type, nodes not ON, files no longer GOOD, ...
     dirtied: Dict[str, int] = {}
@@ -211,18 +325,69 @@ def dirty_history(cfg_or_path, rng: Rng, n_dirty: int, n_later: int, dirty_episo
             dirtied[label] = len(re.findall(pat, st))
     except Exception:
         pass
-    later = [("reset", seed)] + [("step", a) for a in gen_actions(rng.fork("later"), n_later, space)]
-    t_used = run_ops(used, later, Canon())
-    fresh = make(cfg_or_path)
-    for ep in range(dirty_episodes - 1):     # same episode number as the used one (matters for scheduled scenarios)
-        fresh.reset(seed=rng.below(2 ** 31))
-    t_fresh = run_ops(fresh, later, Canon())
-    diff = first_difference(t_used, t_fresh)
-    return {"diff": diff, "used": used, "fresh": fresh, "old_game": old_game, "history": log, "later": later,
-            "digest": digest(t_used), "episodes": (used.episode_counter, fresh.episode_counter), "dirtied": dirtied}
+    results: List[dict] = []
+    fresh = None
+    resets = dirty_episodes - 1
+    for mi, seed in enumerate(seeds):
+        later = [("reset", seed)] + [("step", a) for a in gen_actions(rng.fork(f"later{mi}"), n_later if mi == 0 else max(4, n_later // 2), space)]
+        saved = save_rng() if seed is None else None
+        t_used = run_ops(used, later, Canon(), with_rng=True)
+        after_used = save_rng()
+        if fresh is not None:
+            try:
+                fresh.close()
+            except Exception:
+                pass
+        normalise_process_state()
+        fresh = make(cfg_or_path)
+        for k in range(resets):     # same episode number as the used one (matters for scheduled scenarios)
+            fresh.reset(seed=1000003 + k)
+        if saved is not None:
+            restore_rng(saved)
+        t_fresh = run_ops(fresh, later, Canon(), with_rng=True)
+        res = {"seed": seed, "history": list(history), "fresh_resets": resets, "later": later, "diff": first_difference(t_used, t_fresh),
+               "digest": digest(t_used)}
+        if seed is None:
+            # measured, not claimed (Gymnasium: `reset()` keeps the generator running): does the episode after an unseeded reset equal the
+            # one of a fresh environment that is NOT handed the used environment's generator state?
+            normalise_process_state()
+            plain = make(cfg_or_path)
+            for k in range(resets):
+                plain.reset(seed=1000003 + k)
+            res["unseeded_equals_plain_fresh"] = first_difference(t_used, run_ops(plain, later, Canon(), with_rng=True)) is None
+            try:
+                plain.close()
+            except Exception:
+                pass
+        results.append(res)
+        history += later
+        resets += 1
+        # the fresh environments were built under the used environment's feet: put the generators back where its last operation left them
+        # (the class attributes from_config writes are rewritten by the used environment's next reset, which is its next operation)
+        restore_rng(after_used)
+    first = next((r for r in results if r["diff"] is not None), None)
+    return {"diff": first["diff"] if first else None, "first": first, "results": results, "used": used, "fresh": fresh, "old_game": old_game,
+            "history": results[0]["history"] if results else history, "later": results[0]["later"] if results else [],
+            "digest": results[0]["digest"] if results else "", "episodes": (used.episode_counter, fresh.episode_counter if fresh else -1),
+            "dirtied": dirtied}
 
 
 # ------------------------------------------------------------------------------------------------ (b) interleaving
+_IMPORT_TIME: Dict[str, Any] = {}
+
+
+def nmne_class_attrs_at_import() -> Dict[str, Any]:
+    """the two NMNE class attributes as the import left them (captured the first time the rig looks, before any environment ran in this
+    process): since the F-10 repair no operation writes them (None / False); the rig still normalises and shields them so that a
+    re-introduced write is attributed"""
+    if not _IMPORT_TIME:
+        from primaite.game.agent.observations.nic_observations import NICObservation
+        from primaite.simulator.network.hardware.base import NetworkInterface
+        _IMPORT_TIME["nmne_config"] = NetworkInterface.nmne_config
+        _IMPORT_TIME["capture_nmne"] = NICObservation.capture_nmne
+    return _IMPORT_TIME
+
+
 class Shield:
     """Save / restore a channel of process-global state around the other instance's operations (attribution only)."""
 
@@ -294,29 +459,33 @@ def normalise_process_state():
     import numpy as np
     from primaite.game.agent.observations.nic_observations import NICObservation
     from primaite.simulator.network.hardware.base import NetworkInterface
-    from primaite.simulator.network.nmne import NMNEConfig
     from primaite.simulator.system.core.packet_capture import PacketCapture
     pin_opaque_widths()
+    orig = nmne_class_attrs_at_import()
     random.seed(20240917)
     np.random.seed(20240917)
-    NetworkInterface.nmne_config = NMNEConfig()
-    NICObservation.capture_nmne = NMNEConfig().capture_nmne
+    if NetworkInterface.nmne_config is not orig["nmne_config"]:
+        NetworkInterface.nmne_config = orig["nmne_config"]
+    if NICObservation.capture_nmne is not orig["capture_nmne"]:
+        NICObservation.capture_nmne = orig["capture_nmne"]
     PacketCapture.clear()
 
 
 def run_schedule(cfg_a: Dict, cfg_b: Optional[Dict], schedule: List[Tuple], shield: Optional[Tuple[bool, bool]] = None,
                  globals_fp: Optional[Callable[[], Dict[str, str]]] = None, own: Optional[List[str]] = None) -> List[Dict[str, str]]:
-    """schedule entries: ("A", "construct") ("A", "reset", seed) ("A", "step", act) and the same for "B" plus ("B", "close").
-    Returns A's canonical trajectory. B's entries are skipped when cfg_b is None (A alone).
+    """schedule entries: ("A", "construct") ("A", "reset", seed or None) ("A", "step", act); the same for the OTHER instances "B", "C", …
+    (all built from cfg_b) plus (other, "close"). Returns A's canonical trajectory. The others' entries are skipped when cfg_b is None
+    (A alone).
     With `globals_fp`, the fingerprint of the run-time written, readable process globals right after each of A's OWN construct / reset
-    operations is appended to `own` (what A's `from_config` left behind must be a function of A's scenario alone)."""
+    operations is appended to `own` (what A's `from_config` left behind must be a function of A's scenario alone); after an operation of A
+    that SEEDS (construct with a configured `game.seed`, `reset(seed=s)`) the state of the process-global generators is part of it."""
     envs: Dict[str, Any] = {}
     canon = Canon()
     traj: List[Dict[str, str]] = []
     normalise_process_state()
     for ent in schedule:
         who, op = ent[0], ent[1]
-        if who == "B":
+        if who != "A":
             if cfg_b is None:
                 continue
             ctx = Shield(*shield) if shield else None
@@ -324,13 +493,14 @@ def run_schedule(cfg_a: Dict, cfg_b: Optional[Dict], schedule: List[Tuple], shie
                 ctx.__enter__()
             try:
                 if op == "construct":
-                    envs["B"] = scen.make_env(cfg_b)
+                    envs[who] = scen.make_env(cfg_b)
                 elif op == "reset":
-                    envs["B"].reset(seed=ent[2])
+                    envs[who].reset(seed=ent[2]) if ent[2] is not None else envs[who].reset()
                 elif op == "step":
-                    envs["B"].step(ent[2] % int(envs["B"].action_space.n))
+                    envs[who].step(ent[2] % int(envs[who].action_space.n))
                 elif op == "close":
-                    envs["B"].close()
+                    envs[who].close()
+                    del envs[who]
             finally:
                 if ctx:
                     ctx.__exit__(None, None, None)
@@ -338,38 +508,90 @@ def run_schedule(cfg_a: Dict, cfg_b: Optional[Dict], schedule: List[Tuple], shie
             if op == "construct":
                 envs["A"] = scen.make_env(cfg_a)
                 if globals_fp is not None and own is not None:
-                    own.append(json.dumps(globals_fp(), sort_keys=True))
+                    own.append(json.dumps({**globals_fp(), "generators": rng_fp() if configured_seed(cfg_a) is not None else "-"}, sort_keys=True))
             elif op == "reset":
                 traj += run_ops(envs["A"], [("reset", ent[2])], canon)
                 if globals_fp is not None and own is not None:
-                    own.append(json.dumps(globals_fp(), sort_keys=True))
+                    own.append(json.dumps({**globals_fp(), "generators": rng_fp() if (ent[2] is not None and ent[2] >= 0) else "-"}, sort_keys=True))
             elif op == "step":
                 traj += run_ops(envs["A"], [("step", ent[2])], canon)
     return traj
 
 
-def gen_schedule(rng: Rng, n_a: int, space_a: int, space_b: int, b_first: bool) -> List[Tuple]:
-    """A: construct, reset(seed), n_a steps. B: construct (before or after A's), reset, steps, a mid-way reset, a close and a second
-    construction, interleaved at random."""
-    sa, sb = rng.below(2 ** 31), rng.below(2 ** 31)
-    s: List[Tuple] = [("B", "construct"), ("A", "construct")] if b_first else [("A", "construct"), ("B", "construct")]
-    if rng.chance(1, 2):
-        s += [("A", "reset", sa), ("B", "reset", sb)]
+OTHERS = ("B", "C")
+
+
+def schedule_well_formed(schedule: List[Tuple]) -> bool:
+    """every instance is constructed before it is used and is not used after it was closed; A is constructed"""
+    alive = set()
+    for e in schedule:
+        if e[1] == "construct":
+            if e[0] in alive:
+                return False
+            alive.add(e[0])
+        elif e[0] not in alive:
+            return False
+        elif e[1] == "close":
+            alive.discard(e[0])
+    return any(e[0] == "A" and e[1] == "construct" for e in schedule)
+
+
+def gen_schedule(rng: Rng, n_a: int, space_a: int, space_b: int, b_first: bool, fam_a: Optional[List[Optional[int]]] = None,
+                 fam_b: Optional[List[Optional[int]]] = None) -> List[Tuple]:
+    """A: construct, reset(seed from the family), n_a steps, now and then another reset. Other instances B / C (same scenario): constructed
+    before or after A, reset, stepped, reset mid-way, closed and re-built, closed and NOT re-built (then a successor is constructed later),
+    two of them alive at once; one shape closes B BEFORE A is constructed (A is the successor of a closed instance)."""
+    fam_a = fam_a or [rng.below(2 ** 31)]
+    fam_b = fam_b or [rng.below(2 ** 31)]
+    sa, sb = rng.choice(fam_a), rng.choice(fam_b)
+    alive = {"B"}
+    if b_first and rng.chance(1, 3):
+        # B lives a little and is closed before A exists; C is built after A
+        s: List[Tuple] = [("B", "construct"), ("B", "reset", sb)] + [("B", "step", rng.below(max(1, space_b))) for _ in range(rng.range(1, 4))]
+        s += [("B", "close"), ("A", "construct"), ("C", "construct")]
+        alive = {"C"}
+        first_other = "C"
     else:
-        s += [("B", "reset", sb), ("A", "reset", sa)]
+        s = [("B", "construct"), ("A", "construct")] if b_first else [("A", "construct"), ("B", "construct")]
+        first_other = "B"
+    if rng.chance(1, 2):
+        s += [("A", "reset", sa), (first_other, "reset", sb)]
+    else:
+        s += [(first_other, "reset", sb), ("A", "reset", sa)]
     acts = gen_actions(rng.fork("a"), n_a, space_a)
     for i, a in enumerate(acts):
         k = rng.below(3)
         for _ in range(k):
-            r = rng.below(20)
+            r = rng.below(24)
+            if not alive:
+                w = rng.choice(list(OTHERS))
+                s.append((w, "construct"))
+                alive.add(w)
+                continue
+            w = rng.choice(sorted(alive))
             if r == 0:
-                s.append(("B", "reset", rng.below(2 ** 31)))
+                s.append((w, "reset", rng.choice(fam_b)))
             elif r == 1:
-                s += [("B", "close"), ("B", "construct"), ("B", "reset", rng.below(2 ** 31))]
+                s += [(w, "close"), (w, "construct"), (w, "reset", rng.choice(fam_b))]
+            elif r == 2:
+                s.append((w, "close"))
+                alive.discard(w)
+            elif r == 3 and len(alive) < len(OTHERS):
+                n = sorted(set(OTHERS) - alive)[0]
+                s.append((n, "construct"))
+                alive.add(n)
             else:
-                s.append(("B", "step", rng.below(max(1, space_b))))
+                s.append((w, "step", rng.below(max(1, space_b))))
+        if i and rng.chance(1, 10):
+            s.append(("A", "reset", rng.choice(fam_a)))
         s.append(("A", "step", a))
     return s
+
+
+# F-10 is REPAIRED (fix3-C04): a difference that disappears when the two NMNE class attributes are shielded is a regression and must be a
+# VIOLATION. The merged known_findings.json (not editable from here) still lists F-10 as open with channel "nmne-class-attrs"; the channel is
+# therefore reported under a name that stale entry does not match.
+NMNE_CHANNEL = "nmne-class-attrs-written-again(F-10-regression)"
 
 
 def interleaving(cfg_a: Dict, cfg_b: Dict, schedule: List[Tuple], globals_fp: Optional[Callable[[], Dict[str, str]]] = None) -> dict:
@@ -388,7 +610,7 @@ def interleaving(cfg_a: Dict, cfg_b: Dict, schedule: List[Tuple], globals_fp: Op
     if diff is None:
         return res
     fixes = {}
-    for name, sh in (("global-rng", (True, False)), ("nmne-class-attrs", (False, True)), ("both", (True, True))):
+    for name, sh in (("global-rng", (True, False)), (NMNE_CHANNEL, (False, True)), ("both", (True, True))):
         t = run_schedule(cfg_a, cfg_b, schedule, shield=sh)
         fixes[name] = first_difference(solo, t)
     if fixes["both"] is not None:
@@ -397,15 +619,15 @@ def interleaving(cfg_a: Dict, cfg_b: Dict, schedule: List[Tuple], globals_fp: Op
         # which known channels contribute as well
         if fixes["global-rng"] != diff:
             res["channels"].append("global-rng")
-        if fixes["nmne-class-attrs"] != diff:
-            res["channels"].append("nmne-class-attrs")
+        if fixes[NMNE_CHANNEL] != diff:
+            res["channels"].append(NMNE_CHANNEL)
     else:
         if fixes["global-rng"] is None:
             res["channels"] = ["global-rng"]
-        elif fixes["nmne-class-attrs"] is None:
-            res["channels"] = ["nmne-class-attrs"]
+        elif fixes[NMNE_CHANNEL] is None:
+            res["channels"] = [NMNE_CHANNEL]
         else:
-            res["channels"] = ["global-rng", "nmne-class-attrs"]
+            res["channels"] = ["global-rng", NMNE_CHANNEL]
     res["fixes"] = {k: (v is None) for k, v in fixes.items()}
     return res
 
@@ -430,6 +652,12 @@ def uses_global_rng(cfg: Dict) -> bool:
     return False
 
 
+def draws_at_build(cfg: Dict) -> bool:
+    """does `from_config` of this scenario draw from a process-global generator? Every scripted agent does (periodic / TAP agents draw their
+    start step and node; a probabilistic agent draws the seed of its PRIVATE generator from numpy's global one)"""
+    return any(a.get("type") != "proxy-agent" for a in cfg.get("agents", []))
+
+
 def nmne_key(cfg: Dict) -> str:
     from primaite.simulator.network.nmne import NMNEConfig
     c = NMNEConfig(**cfg.get("simulation", {}).get("network", {}).get("nmne_config", {}))
@@ -437,26 +665,30 @@ def nmne_key(cfg: Dict) -> str:
 
 
 def model_lines(cfg_a: Dict, cfg_b: Dict, schedule: List[Tuple], ids: Dict[str, int]) -> Tuple[List[str], List[int]]:
-    """protocol lines for drv_c04 and, for each line, the index of A's trajectory record it corresponds to (-1: none)."""
+    """protocol lines for drv_c04 and, for each line, the index of A's trajectory record it corresponds to (-1: none). The seed arguments go
+    to the model as they are (`resetopt 0`, `resetopt none`, `constructopt <game.seed or none>`): which skeleton program a call is, is the
+    model's business (Model.Isolation.resetCall / constructCall)."""
     def nid(cfg):
         return ids.setdefault(nmne_key(cfg), len(ids))
+    inst = {"A": 0, "B": 1, "C": 2}
     lines = ["reset",
-             f"new 0 7 {nid(cfg_a)} 0 {int(uses_global_rng(cfg_a))} 0",
-             f"new 1 9 {nid(cfg_b)} 0 {int(uses_global_rng(cfg_b))} 0"]
-    idx = [-1, -1, -1]
+             f"new 0 7 {nid(cfg_a)} 0 {int(uses_global_rng(cfg_a))} 0 0 {int(draws_at_build(cfg_a))}",
+             f"new 1 9 {nid(cfg_b)} 0 {int(uses_global_rng(cfg_b))} 0 0 {int(draws_at_build(cfg_b))}",
+             f"new 2 9 {nid(cfg_b)} 0 {int(uses_global_rng(cfg_b))} 0 0 {int(draws_at_build(cfg_b))}"]
+    idx = [-1, -1, -1, -1]
     k = 0
     for ent in schedule:
-        who = 0 if ent[0] == "A" else 1
+        who = inst[ent[0]]
         cfg = cfg_a if who == 0 else cfg_b
         op = ent[1]
         if op == "close":
             continue
         if op == "construct":
-            seeded = cfg.get("game", {}).get("seed") is not None
-            lines.append(f"ev {who} {'construct' if seeded else 'constructns'} {cfg.get('game', {}).get('seed') or 0}")
+            gs = cfg.get("game", {}).get("seed")
+            lines.append(f"ev {who} constructopt {seed_text(gs if isinstance(gs, int) else None)}")
             idx.append(-1)
         elif op == "reset":
-            lines.append(f"ev {who} reset {ent[2] % 100000}")
+            lines.append(f"ev {who} resetopt {seed_text(ent[2])}")
             idx.append(k if who == 0 else -1)
             k += 1 if who == 0 else 0
         else:
